@@ -52,6 +52,9 @@ def check_c02(pid, tier, t0, replay_key):
     f8, o8 = e1.rule_r8b(E, M)
     findings += f8
     obl += o8
+    f12, o12 = e1.rule_r12(E)
+    findings += f12
+    obl += o12
     configs = ["default"]
     if tier == "thorough":
         # second build configuration: sequential scope (no rayon) changes Workload::exec's MIR
@@ -100,7 +103,7 @@ def check_c02(pid, tier, t0, replay_key):
         "(R7) the worker closure decrements counters only after the job ran, only on success and never after sending the completion, in every "
         "build configuration analysed; (R8) main-thread reads in handle_success are ordered after every writer of the slot; (R8b) other "
         "main-thread touches happen after Workload::exec returned; (R9) a slot read with the panicking get() is written on every Ok path of "
-        "its producer. Not decided: instance-level ordering inside multi-instance variants (audited exceptions with re-checked witnesses), "
+        "its producer; (R12) AnyAccess::to_fe/to_be hand each context view the same access kind the job declared. Not decided: instance-level ordering inside multi-instance variants (audited exceptions with re-checked witnesses), "
         "counter arithmetic ('completed twice'), correctness of crossbeam/rayon/parking_lot.")
     rule_text = ("one obligation per rule instance (job x slot x writer, job x dynamic job x trigger, rewrite site, producer x reader, ...); "
                  "distinct = distinct instance strings; every instance enumerated from the current tree is evaluated (no sampling)")
@@ -245,6 +248,10 @@ def check_c20(pid, tier, t0, replay_key):
     obl += o2
     samples += s2
     st.update(st2)
+    f3, o3, s3, st3 = e5.rule_l4(P, tables)
+    findings += f3
+    obl += o3
+    st.update(st3)
     common.check_floors(pid, {"q1_obligations": len(obl)}, tables)
     if tier == "thorough":
         st["selftest"] = run_selftest(pid)
@@ -254,7 +261,9 @@ def check_c20(pid, tier, t0, replay_key):
         "and BeContext::new_root passes, the two entry points share it, and those four are not called from anywhere outside it. Formulated as a "
         "call-graph dominator, so renaming or splitting the function is not an alarm. (L2) A necessary condition of container equivalence for Glyphs "
         "sources: the functions that only the .glyphspackage route executes never consult custom parameters (content is interpreted once, on the "
-        "common RawFont -> Font path). NOT decided: container equivalence in general (.glyphs file vs "
+        "common RawFont -> Font path). (L4) A necessary condition of lone-UFO vs one-source-designspace agreement: `public.*` lib keys are "
+        "looked up on the designspace lib only for the documented key (the default master's public.* keys are not merged into the designspace "
+        "lib for a .designspace input). NOT decided: container equivalence in general (.glyphs file vs "
         ".glyphspackage vs in-memory text), UFO vs single-source designspace agreement, insensitivity to source formatting - those are parser "
         "semantics over input values.")
     rule_text = "one obligation per entry point, per shared-dominator test and per scheduler/context constructor (callers confined below the dominator)"
@@ -335,6 +344,10 @@ def check_c13(pid, tier, t0, replay_key):
     obl += o
     samples += s
     st.update(s2)
+    f, o, s, s2 = e5.rule_l3(P, tables)
+    findings += f
+    obl += o
+    st.update(s2)
     # recursion census restricted to the FEA front end
     reach = e3.entry_reach(P)
     f, o, s, s2 = e4.rule_x4(P, reach, tables, None)
@@ -353,7 +366,10 @@ def check_c13(pid, tier, t0, replay_key):
         "bounds the include depth by MAX_INCLUDE_DEPTH and keeps a seen set - cyclic or too-deep includes are reported instead of looping. (L1) A "
         "necessary condition of losslessness: exactly one function (AstSink::token) advances the sink's source cursor, slicing by the same length it "
         "advances by; the lexer is pulled only by Parser::advance; every function that advances the parser hands the consumed lexeme(s) to "
-        "AstSink::token. Plus the recursion census restricted to the FEA parser/token tree (each cycle there is tree- or grammar-bounded). NOT "
+        "AstSink::token. (L3) A necessary condition of 'diagnostics point at ranges on character boundaries inside the source': the Range handed "
+        "to a diagnostic constructor in the parser is taken from token/node ranges, not computed by byte arithmetic in the reporting function "
+        "(one audited site; the two `pos..pos+1` helpers that can point one byte past the end of input are listed known findings). Plus the "
+        "recursion census restricted to the FEA parser/token tree (each cycle there is tree- or grammar-bounded). NOT "
         "decided - do not read this check as evidence for them: termination of the grammar's loops, panic-freedom (indexing/slicing/unwrap sites), "
         "diagnostic ranges on character boundaries, the contextual-rule rewrite re-emitting every child.")
     rule_text = "one obligation per guard clause, cursor writer, lexer caller, advance caller and FEA front-end recursive cycle"
